@@ -1591,6 +1591,8 @@ class Engine:
         if isinstance(v, VExc):
             f = z3.String(self.fresh('excstr'))
             return VS(f)
+        if isinstance(v, VT):
+            return VS(z3.String(self.fresh('strtuple')))      # repr-based text of a tuple: some string
         raise Unsupported('str() of %r' % (v,))
 
     def to_val(self, v):
